@@ -3,7 +3,7 @@
    arbitrary, the scripts are arbitrary) the results of the model's run satisfy them.  No consistency
    hypothesis is used here: the clauses speak about the locator only. *)
 From Coq Require Import Arith NArith List Ascii String Bool Lia.
-From AV Require Import lib.Str model.C03_model model.C03_run proofs.C03_proofs proofs.C03_run_proofs proofs.C03_spec.
+From AV Require Import lib.Str model.C03_model model.C03_run proofs.C03_proofs proofs.C03_run_proofs proofs.C03_err_proofs proofs.C03_spec.
 Import ListNotations.
 Local Open Scope nat_scope.
 
@@ -251,10 +251,11 @@ End L.
 (* the model's run passes the whole boolean specification *)
 Theorem model_meets_spec i :
   (forall bl, In bl (i_blocks i) -> Cons i bl) -> Forall (op_wf i) (i_ops i) ->
-  spec_b {| c_in := i; c_obs := {| ob_res := fst (run_model i); ob_log := cs_log (snd (run_model i)); ob_sync := true |} |} = true.
+  spec_b {| c_in := i; c_obs := {| ob_res := fst (run_model i); ob_log := cs_log (snd (run_model i));
+                                   ob_nreq := run_nreq i; ob_sync := true |} |} = true.
 Proof.
-  intros Hc Hw. unfold spec_b. cbn [c_in c_obs ob_res].
-  rewrite (model_ops_ok i Hc Hw), (model_notfound_ok i), (model_loc_ok i). reflexivity.
+  intros Hc Hw. unfold spec_b. cbn [c_in c_obs ob_res ob_log ob_nreq ob_sync].
+  rewrite (model_ops_ok i Hc Hw), (model_notfound_ok i), (model_loc_ok i), (model_errclass_ok i). reflexivity.
 Qed.
 
 (* ------------------------------------------------------------------ readable consequences of loc_ok *)
@@ -310,3 +311,38 @@ Proof.
   intros X. specialize (X (ex_chunked_in "5" (OGet 0 MReadAll)) 0 5 0 "foo"%string ENil 5 eq_refl).
   assert (E : slen "foo" = 5) by (apply X; vm_compute; reflexivity). discriminate E.
 Qed.
+
+(* ------------------------------------------------------------------ the error class of a failed read *)
+(* one call of getOrHead, Prop-level: the error is classified by the answers to the call's own requests *)
+Lemma get_or_head_error_class oracle retries order loc e :
+  NoDup order -> g_res (get_or_head oracle retries order loc) = GErr e ->
+  ClassSpec order (ans_of oracle (g_log (get_or_head oracle retries order loc))) e.
+Proof.
+  intros Hnd E. pose proof (get_or_head_class oracle retries order loc Hnd) as C. rewrite E in C. apply class_okb_iff. exact C.
+Qed.
+
+Lemma answer_classes r :
+  (is404b r = true <-> exists d b c, r = Resp 404 d b c) /\
+  (retryableb r = true <-> r = ConnErr \/ exists st d b c, r = Resp st d b c /\ (st = 408 \/ st = 429 \/ 500 <= st)%N).
+Proof. split; [apply is404b_iff|apply retryableb_iff]. Qed.
+
+(* Two services, Retries = 2.  Service 0 answers 500 then 404; service 1 answers 500 three times.  The model asks
+   0 1 | 0 1 | 1 and reports a temporary error; BlockNotFound for the same requests is rejected by the clause, and
+   so is it for the request sequence 0 1 | 0 1 | 0 1 1 of a client that does not reset its retry list. *)
+Definition ex_retry_block : blockin :=
+  {| b_loc := "acbd18db4cc2f85cedef654fccc4a4d8+3"; b_content := "foo"; b_consistent := true; b_order := [0; 1];
+     b_script := [[Resp 500 (Some 2) "no" false; Resp 404 (Some 2) "no" false; Resp 404 (Some 2) "no" false];
+                  [Resp 500 (Some 2) "no" false; Resp 500 (Some 2) "no" false; Resp 500 (Some 2) "no" false;
+                   Resp 500 (Some 2) "no" false]] |}.
+Definition ex_retry_in : cin :=
+  {| i_retries := 2; i_blocks := [ex_retry_block]; i_htab := [("foo"%string, "acbd18db4cc2f85cedef654fccc4a4d8"%string)];
+     i_ops := [OGet 0 MReadAll] |}.
+
+Lemma error_class_example :
+  fst (run_model ex_retry_in) = [RGet ETemp 0 0 "" ENil ENil] /\
+  cs_log (snd (run_model ex_retry_in)) = [(0, 0, 0); (0, 1, 0); (0, 0, 1); (0, 1, 1); (0, 1, 2)] /\
+  run_nreq ex_retry_in = [5] /\
+  err_ok ex_retry_in (OGet 0 MReadAll) (RGet ENotFound 0 0 "" ENil ENil) (cs_log (snd (run_model ex_retry_in))) = false /\
+  err_ok ex_retry_in (OGet 0 MReadAll) (RGet ENotFound 0 0 "" ENil ENil)
+         [(0, 0, 0); (0, 1, 0); (0, 0, 1); (0, 1, 1); (0, 0, 2); (0, 1, 2); (0, 1, 3)] = false.
+Proof. repeat split; vm_compute; reflexivity. Qed.
